@@ -115,8 +115,9 @@ Section Eval.
     match s with
     | SAssign x e => let '(m1, v) := ev m a e in (wr m1 x v, None)
     | SSetPtr p x => (setp m p x, None)
-    | SStoreP p e => let '(m1, v) := ev m a e in
-                     (match alookup (ptrs m1) p with Some x => wr m1 x v | None => m1 end, None)
+    | SStoreP p e => let tgt := alookup (ptrs m) p in      (* the pointer is read before the right-hand side runs *)
+                     let '(m1, v) := ev m a e in
+                     (match tgt with Some x => wr m1 x v | None => m1 end, None)
     | SPrint e => let '(m1, v) := ev m a e in (pr m1 v, None)
     | SExpr e => let '(m1, v) := ev m a e in (m1, Some v)
     end.
